@@ -20,12 +20,12 @@ RULE = ("seeded random vectors of every orderable dtype (bool,int,float,str,>=50
         "(function, argument, kind, length class, NA pattern, tie presence) signatures")
 ASSUMPTIONS = [
     "order: numbers numerically (0.0 ties with -0.0), strings by code point, dates chronologically, False < True",
-    "object vectors are generated only from values whose str() order equals their natural order (strings, bools), because the library sorts objects by str(x) while rank uses <",
+    "object vectors hold mutually comparable values (strings, bools, integers whose str() order differs from their own)",
     "strings containing U+0000 are not generated (fixed-width NumPy strings strip trailing NULs)",
 ]
 REACH = {"quick": {"len:0": 100, "na:all": 100, "kind:lstr": 100, "kind:ostr": 50, "fn:rank": 1000, "fn:sort": 1000, "fn:unique": 500, "tag:big": 5, "after-inplace-edit": 1000}}
 
-KINDS = ["bool", "int", "float", "str", "str", "lstr", "ustr", "date", "datetime", "ostr", "obool", "timedelta", "int_be", "float_be", "datetime_be", "tstr", "longdouble", "datetime_ns", "datetime_s"]
+KINDS = ["bool", "int", "float", "str", "str", "lstr", "ustr", "date", "datetime", "ostr", "obool", "timedelta", "int_be", "float_be", "datetime_be", "tstr", "longdouble", "datetime_ns", "datetime_s", "oint", "oint"]
 
 def generate(rng, tier):
     if rng.random() < 0.002:
